@@ -15,8 +15,11 @@ CFG = {
                   "write abort — membership of recorded external histories of the real UDPMuxDefault in the model's observable "
                   "language plus the in-package writeState at quiescence); sync/atomic sequentially consistent; one loop iteration "
                   "with a successful CAS = one atomic step (failed CAS = stutter); OS deadline semantics replaced by the scripted "
-                  "socket (write blocks until released or deadline set to now; an armed deadline fails writes; "
-                  "SetWriteDeadline(zero) does not fail). Not built: S/T tie of the six CAS functions (loops are outside the "
+                  "socket (write blocks until released - successfully or with an error - or deadline set to now, or fails at "
+                  "once with a non-deadline error; an armed deadline fails writes; SetWriteDeadline(zero) does not fail); the "
+                  "scripted socket is used both as a plain net.PacketConn and as an AddrPortReaderWriter (the interface "
+                  "asAddrPortReaderWriter accepts besides the concrete *net.UDPConn), so both write paths of the mux "
+                  "(writeToContext and writeToUDPAddrPort) run against the one model; a real *net.UDPConn is not exercised. Not built: S/T tie of the six CAS functions (loops are outside the "
                   "translator's subset); the bit constants are compared at run time.",
     "components": [
         {"component": "shared", "session_start": "new", "trivial_regex": r"^(skip|bad-.*)$", "shrink_s": 30},
@@ -24,10 +27,15 @@ CFG = {
     ],
     "rule": "shared: boundary sessions + random sessions (quick 150, thorough 20000) of open/close/read/write/setrd/setwd/feed over "
             "<= 8 handles for each of fake / UDP mux / TCP mux underlying connections; distinct = distinct (operation, output) lines. "
-            "writeabort: 10 deterministic schedules built from the scripted socket (incl. the F11 schedule, retried until reached) + "
-            "randomised concurrent runs (quick 1500, thorough 60000; 1-5 writers with background/cancellable contexts directly or "
-            "through handles of two ufrags, 0-3 aborters, scripted SetWriteDeadline(now) failures in half of the runs, "
-            "GOMAXPROCS in {1,2,NCPU}); one history per line; non-trivial = every recorded history.",
+            "writeabort: 28 deterministic schedules built from the scripted socket (10 over a plain socket / the net.Addr write path; "
+            "18 over an AddrPort-capable socket or mixing both write paths: a write that fails with a non-deadline error followed "
+            "by an abort of the other user and writes by everybody, a failing write beside a blocked one, a blocked write released "
+            "with an error, aborted / cancelled / spinning writers on the AddrPort path) + the F11 schedule (retried until reached) + "
+            "randomised concurrent runs (quick 1500, thorough 60000; 2/3 of them on an AddrPort-capable socket; 1-5 writers with "
+            "background/cancellable contexts directly or through handles of two ufrags, non-cancellable ones over the net.Addr or the "
+            "netip.AddrPort path, socket outcomes ok / error / blocks until deadline or released, 0-3 aborters, scripted "
+            "SetWriteDeadline(now) failures in half of the runs, GOMAXPROCS in {1,2,NCPU}); every quiescent state is probed by a "
+            "net.Addr write of one user and an AddrPort write of the other; one history per line; non-trivial = every recorded history.",
     "translated": [],
     "trusted_base": ["sync/atomic operations are sequentially consistent (Go memory model)",
                      "OS socket deadline semantics are those of the scripted socket (harness/inpkg/zz_verif_writeabort_test.go)",
